@@ -297,6 +297,8 @@ func engDuplicate(variants []dupParams) vsched.Instance {
 	var p dupParams
 	var got []*actor.PID // PIDs returned by the racing spawns
 	getAfter := map[int]bool{}
+	var childGone bool
+	var childStopped, childStoppedBefore int
 	body := func() {
 		p = variants[chooseVariant(len(variants))]
 		k = NewKit()
@@ -334,6 +336,15 @@ func engDuplicate(variants []dupParams) vsched.Instance {
 			})
 		}
 		vsched.Quiesce()
+		if p.Child {
+			// the duplicate spawns must have left the incumbent child where it was: still its parent's child,
+			// so it goes down with the parent and the whole tree can be spawned again
+			childStoppedBefore = len(k.EventsMatching("ActorStopped(local/p/1/x/1)"))
+			vsched.Recv(k.E.Poison(actor.NewPID("local", "p/1")).Done())
+			vsched.Quiesce()
+			childGone = k.E.Registry.GetPID("p/1/x", "1") == nil
+			childStopped = len(k.EventsMatching("ActorStopped(local/p/1/x/1)")) - childStoppedBefore
+		}
 	}
 	check := func(r *vsched.Result) []vsched.Violation {
 		vs := stdEnd(r)
@@ -341,6 +352,9 @@ func engDuplicate(variants []dupParams) vsched.Instance {
 			return vs
 		}
 		vs = append(vs, k.serial()...)
+		if p.Child && (!childGone || childStopped != 1) {
+			vs = append(vs, V("duplicate-id/incumbent-child-detached-from-parent", "%s: after the duplicate SpawnChild calls the parent was stopped: child unregistered=%v, ActorStoppedEvents for it %d (want true, 1); log: %s", p, childGone, childStopped, k.LogString()))
+		}
 		total := p.Spawners
 		if p.Pending > 0 {
 			total++
@@ -356,7 +370,7 @@ func engDuplicate(variants []dupParams) vsched.Instance {
 		if d := k.EventsMatching("ActorDuplicateId(" + pidName + ")"); len(d) != wantDup {
 			vs = append(vs, V("duplicate-id/wrong-number-of-duplicate-events", "%s: %d ActorDuplicateIdEvents, want %d; events %v", p, len(d), wantDup, k.Events()))
 		}
-		vs = append(vs, lifecycleShape(k, "X", false)...)
+		vs = append(vs, lifecycleShape(k, "X", p.Child)...)
 		um := userMsgs(k.Recv("X"))
 		if len(um) != p.Pending {
 			vs = append(vs, V("duplicate-id/incumbent-pending-messages-disturbed", "%s: incumbent handled %d of %d pending messages; log: %s", p, len(um), p.Pending, k.LogString()))
@@ -482,25 +496,66 @@ type swrParams struct {
 	Stop   int // 1 Poison, 2 Stop
 	Others int // further stop requests issued by other threads beforehand
 	Child  bool
+	// StopPanics: the receiver panics in its Stopped handler - stopped is stopped, the id is free afterwards.
+	StopPanics bool
+	// Probe: inside its Stopped handler the receiver asks GetPID for its own id and then tries to spawn that
+	// id: GetPID must be non-nil exactly if the spawn is refused (the id is taken exactly while it is registered).
+	Probe bool
 }
 
-func (p swrParams) String() string { return fmt.Sprintf("stop%dothers%dchild%v", p.Stop, p.Others, p.Child) }
+func (p swrParams) String() string {
+	return fmt.Sprintf("stop%dothers%dchild%vstoppanics%vprobe%v", p.Stop, p.Others, p.Child, p.StopPanics, p.Probe)
+}
 
 func engStopWaitRespawn(variants []swrParams) vsched.Instance {
 	var k *Kit
 	var p swrParams
 	var bad []vsched.Violation
+	probeTaken := false
 	body := func() {
 		bad = nil
+		probeTaken = false
 		p = variants[chooseVariant(len(variants))]
 		k = NewKit()
 		var parentCtx *actor.Context
 		var pid *actor.PID
-		spawn := func(name string) *actor.PID {
-			if p.Child {
-				return parentCtx.SpawnChild(k.Producer(name, nil), "x", actor.WithID("1"))
+		probed := false
+		xBehave := func(k *Kit, c *actor.Context, inc int) {
+			if _, ok := c.Message().(actor.Stopped); !ok {
+				return
 			}
-			return k.E.Spawn(k.Producer(name, nil), "x", actor.WithID("1"))
+			if p.Probe && !probed {
+				probed = true
+				kind, id := "x", "1"
+				if p.Child {
+					kind = "p/1/x"
+				}
+				seen := c.Engine().Registry.GetPID(kind, id) != nil
+				n0 := k.Incs("X3")
+				if p.Child {
+					parentCtx.SpawnChild(k.Producer("X3", nil), "x", actor.WithID("1"))
+				} else {
+					c.Engine().Spawn(k.Producer("X3", nil), "x", actor.WithID("1"))
+				}
+				taken := k.Incs("X3") == n0
+				probeTaken = taken
+				if seen != taken {
+					bad = append(bad, V("respawn/getpid-disagrees-with-registry", "%s: inside its Stopped handler the actor saw GetPID non-nil=%v for its own id, a spawn of that id at the same moment was refused=%v; log: %s", p, seen, taken, k.LogString()))
+				}
+			}
+			if p.StopPanics {
+				panic("in the Stopped handler")
+			}
+		}
+		spawn := func(name string) *actor.PID {
+			var b Behaviour
+			if name == "X" {
+				b = xBehave
+			}
+			if p.Child {
+				return parentCtx.SpawnChild(k.Producer(name, b), "x", actor.WithID("1"))
+			}
+			return k.E.Spawn(k.Producer(name, b), "x", actor.WithID("1"))
 		}
 		if p.Child {
 			k.E.Spawn(k.Producer("P", func(k *Kit, c *actor.Context, inc int) {
@@ -531,6 +586,9 @@ func engStopWaitRespawn(variants []swrParams) vsched.Instance {
 			done = k.E.Stop(pid).Done()
 		}
 		vsched.Recv(done)
+		if p.Probe && !probeTaken {
+			return // the probe spawn legitimately took the id over: nothing more to respawn
+		}
 		if p.Child {
 			k.E.Send(actor.NewPID("local", "p/1"), "respawn")
 			vsched.Quiesce()
@@ -556,7 +614,11 @@ func engStopWaitRespawn(variants []swrParams) vsched.Instance {
 			return vs
 		}
 		vs = append(vs, k.serial()...)
-		if n := len(k.EventsMatching("ActorDuplicateId")); n != 0 {
+		wantDup := 0
+		if p.Probe && probeTaken {
+			wantDup = 1
+		}
+		if n := len(k.EventsMatching("ActorDuplicateId")); n != wantDup {
 			vs = append(vs, V("respawn/duplicate-event-for-free-id", "%s: %d ActorDuplicateIdEvent although the id was free; log: %s", p, n, k.LogString()))
 		}
 		return append(vs, bad...)
@@ -831,10 +893,11 @@ type restartLateParams struct {
 	Third bool // one more sender, started by the first delivery after the restart
 	Delay bool // RestartDelay 10ms (virtual) instead of 0
 	Size  int
+	Internal bool // the panic value is an *actor.InternalError (the restart path tryRestart treats separately)
 }
 
 func (p restartLateParams) String() string {
-	return fmt.Sprintf("tail%dlate%dthird%vdelay%v", p.Tail, p.Late, p.Third, p.Delay)
+	return fmt.Sprintf("tail%dlate%dthird%vdelay%vinternal%v", p.Tail, p.Late, p.Third, p.Delay, p.Internal)
 }
 
 // engRestartLate: message 0 panics once. Behind it sit Tail messages of the same sender; the
@@ -867,6 +930,9 @@ func engRestartLate(variants []restartLateParams) vsched.Instance {
 							e.Send(pid, 100+i)
 						}
 					})
+				}
+				if p.Internal {
+					panic(&actor.InternalError{From: "restart-late", Err: fmt.Errorf("boom")})
 				}
 				panic("boom")
 			}
